@@ -1205,6 +1205,12 @@ func (fc *FuncCtx) nonNil0(v ssa.Value) *bddNode {
 					return fc.A.Ctx(fv.Parent().Parent()).NonNil(sv)
 				}
 			}
+			// an error kept in a field of a local object until it is tested (retErr.PrivateErr = ... in the branches of a
+			// chain; if retErr.PrivateErr != nil { return nil, retErr }): the field starts out nil, every assignment gives
+			// it a non-nil value, so it is non-nil exactly when one of the assignments executed
+			if f, ok := fc.fieldSetSomewhere(x); ok {
+				return f
+			}
 		}
 	case *ssa.Call:
 		if sc := x.Call.StaticCallee(); sc != nil {
@@ -2824,4 +2830,76 @@ func (fc *FuncCtx) constArg(v ssa.Value, depth int) *ssa.Const {
 		return c
 	}
 	return fc.parent.constArg(av, depth+1)
+}
+
+// fieldSetSomewhere: ld reads a nillable field of a local object (a struct the function allocates; its address goes
+// nowhere but into the function's own returns) that no literal initialises and that is assigned only values that are
+// non-nil where they are assigned, outside loops and before ld: the disjunction of the conditions of the assignments.
+func (fc *FuncCtx) fieldSetSomewhere(ld *ssa.UnOp) (*bddNode, bool) {
+	B := fc.A.B
+	fa, ok := ld.X.(*ssa.FieldAddr)
+	if !ok || fc.cond == nil || !nillable(ld.Type()) {
+		return nil, false
+	}
+	al, ok := fa.X.(*ssa.Alloc)
+	if !ok || al.Referrers() == nil || fc.inLoop(ld.Block()) {
+		return nil, false
+	}
+	var stores []*ssa.Store
+	for _, rf := range *al.Referrers() {
+		switch u := rf.(type) {
+		case *ssa.FieldAddr:
+			for _, r2 := range *u.Referrers() {
+				switch w := r2.(type) {
+				case *ssa.Store:
+					if w.Addr != ssa.Value(u) {
+						return nil, false
+					}
+					if u.Field == fa.Field {
+						stores = append(stores, w)
+					}
+				case *ssa.UnOp, *ssa.DebugRef:
+				default:
+					if u.Field == fa.Field {
+						return nil, false
+					}
+				}
+			}
+		case *ssa.MakeInterface:
+			for _, r2 := range *u.Referrers() {
+				switch r2.(type) {
+				case *ssa.Return, *ssa.DebugRef:
+				default:
+					return nil, false
+				}
+			}
+		case *ssa.Return, *ssa.DebugRef:
+		default:
+			return nil, false
+		}
+	}
+	acc := B.False
+	n := 0
+	for _, st := range stores {
+		sb := st.Block()
+		if sb != ld.Block() && !blockReaches(sb, ld.Block()) {
+			continue // an assignment made after the test
+		}
+		n++
+		if sb == al.Block() || fc.inLoop(sb) || sb == ld.Block() || blockReaches(ld.Block(), sb) {
+			return nil, false
+		}
+		c, ok := fc.cond[sb]
+		if !ok {
+			return nil, false
+		}
+		if !B.Implies(c, fc.NonNil(st.Val)) {
+			return nil, false
+		}
+		acc = B.Or(acc, c)
+	}
+	if n < 2 {
+		return nil, false
+	}
+	return acc, true
 }
